@@ -62,7 +62,9 @@ def one_case(ctx, rng, sb, nfaults):
         if rng.random() < 0.3:
             hooks = [rng.choice([None, True, False]), rng.choice([None, True, False])]
         items.append({"before": hooks[0], "after": hooks[1], "tree": tree if rng.random() > 0.08 else None})
-    case = walkrun.WalkCase(sb, items, fail_seed=rng.randrange(4))
+    rotation = rng.random() < 0.5
+    case = walkrun.WalkCase(sb, items, fail_seed=rng.randrange(4), rotation=rotation)
+    ctx.count("storage.rotation-due" if rotation else "storage.fresh")
     # undecodable / unrepresentable names inside directories of the tree
     bad_paths = [[] for _ in items]
     for i, it in enumerate(items):
@@ -101,8 +103,7 @@ def one_case(ctx, rng, sb, nfaults):
         if n["kind"] == "file" and fault == "readerr" and len(n["data"]) == 0:
             fault = "denied"
         path = os.path.join(case.roots[i], *[walkrun.name_of(x) for x in p])
-        shutil.rmtree(case.st)
-        os.makedirs(case.st)
+        case.reset_storage()
         rc0, out0, ev0 = traced(case, inject or None)
         inj = case.find_injection(ev0, path, n["kind"], fault)
         if inj is None:
@@ -112,8 +113,7 @@ def one_case(ctx, rng, sb, nfaults):
         n["fault"] = fault
         inject.append("%s:error=%s:when=%d" % inj)
         ctx.count("fault.%s.%s%s" % (fault, n["kind"], ".top" if not p else ""))
-    shutil.rmtree(case.st)
-    os.makedirs(case.st)
+    case.reset_storage()
     rc, out, ev = traced(case, inject or None)
     wire = [1900, [[[walkrun.hook_wire(it["before"]), walkrun.hook_wire(it["after"]), [walkrun.wire_node(it["tree"])] if it["tree"] is not None else [], bad_paths[i]]
                     for i, it in enumerate(items)]]]
@@ -123,7 +123,8 @@ def one_case(ctx, rng, sb, nfaults):
     warns = [w for w in slevel.warnings_of(out) if "hard links" not in w]
     dec = sb.read_storage(case.st)
     la, _ = runs.listing(dec)
-    published = [b for _, fin, _, _ in la for b in fin]
+    published = [b for g_, fin, _, _ in la for b in fin if g_ != walkrun.WalkCase.OLD_GROUP]
+    old_group_left = any(g_ == walkrun.WalkCase.OLD_GROUP for g_, _, _, _ in la)
     desc = {"items": len(items), "faults": [(f, ) for f in inject], "missing_items": [i for i, it in enumerate(items) if it["tree"] is None],
             "unrepresentable_names": sum(len(b) for b in bad_paths)}
     ctx.evaluations += 1
